@@ -60,10 +60,18 @@ def Ctx.subscriptionReply (c : Ctx) (t : Topic) (a : Actor) (mode : String) (pri
         if rcpt.isEmpty then c else
         { c with pushes := c.pushes ++ [s!"push what=sub topic={tn} seq={t.lastId} to=\{{",".intercalate rcpt}} chan=-"] }
       else c
+    -- … and the subscriber's other sessions learn of the new subscription on `me`
+    let c := match res.modeChanged with
+      | some (w, g) => if newsub then
+          c.presSingleOffline t a.uid (w &&& g) "acs" s!" dacs={showMode w}/{showMode g}" a.uid "" a.sid false else c
+      | none => c
     -- sendSubNotifications for a foreground session
     let (c, t) :=
       if !a.bg ∧ hasJoined then
-        if !t.loaded then (c, { t with loaded := true })
+        if !t.loaded then
+          -- the topic is online now: every subscriber is told on `me`
+          let status := if isPresencer (eff (t.pud a.uid)) then "on+en" else "on"
+          (c.presSubsOffline t status "" "" "" 0 0 { what := status } "" false, { t with loaded := true })
         else if (t.pud a.uid).online = 1 then
           (c.presOnline t { what := "on", src := a.uid, filterIn := modeRead, skipSid := a.sid }, t)
         else (c, t)
@@ -210,6 +218,7 @@ def Ctx.deliverPub (c : Ctx) (t : Topic) (a : Actor) (m : MsgRow) (marked noEcho
   let t := if found ∧ marked then t.setPud a.uid { pud with readId := m.seq, recvId := m.seq } else t
   let c := c.emit a.sid (ctrl 202 tn s!" seq={m.seq}")
   let c := c.fanoutData t (if noEcho then a.sid else "") (dataFrame tn a.uid m.seq m.head m.content)
+  let c := c.presSubsOffline t "msg" s!" seq={m.seq}" a.uid "" modeRead 0 { what := "msg" } "" true
   let rcpt := pushRcpt t
   let c := if rcpt.isEmpty then c else
     { c with pushes := c.pushes ++ [s!"push what=msg topic={tn} seq={m.seq} to=\{{",".intercalate (rcpt.mergeSort (· ≤ ·))}} chan=-"] }
@@ -292,7 +301,12 @@ def Ctx.opNote (c : Ctx) (a : Actor) (tn : TName) (what : String) (seqArg : Int)
       match c.noteStore tn a.uid read recv with
       | (c, false) => c
       | (c, true) =>
+        -- presPubMessageCount: the user's sessions which are not attached here learn of the new mark on `me`
+        let c := if read > 0 then c.presSingleOffline t a.uid (eff pud) "read" s!" seq={read}" "" "" a.sid true
+          else if recv > 0 then c.presSingleOffline t a.uid (eff pud) "recv" s!" seq={recv}" "" "" a.sid true
+          else c
         let t := if (if read > 0 then read else recv) > 0 then t.setPud a.uid pud' else t
+        let c := c.infoSubsOffline t a.uid what seqArg a.sid
         let c := c.fanoutInfo t a.sid a.uid what s!"info {tn} from={a.uid} what={what} seq={seqArg}"
         c.putLive t
 
@@ -530,6 +544,13 @@ def Ctx.opSetDesc (c : Ctx) (a : Actor) (tn : TName) (o : SetDescOpts) : Ctx :=
     let t := match accUpd with | some (x, y) => { t with auth := x, anon := y } | none => t
     let t := if pubCh then { t with pub := npub } else t
     let t := if privCh then t.setPud a.uid { t.pud a.uid with priv := npriv } else t
+    -- the subscribers learn of a new `public` on `me`; the requester's other sessions of either change
+    let c := if pubCh ∨ privCh then
+        let c := if pubCh then
+            c.presSubsOffline t "upd" "" "" "" modeJoin 0 { what := "upd", filterIn := modeJoin, excludeUser := a.uid } a.sid false
+          else c
+        c.presSingleOffline t a.uid (eff (t.pud a.uid)) "upd" "" "" "" a.sid false
+      else c
     (c.emit a.sid (ctrl 200 tn)).putLive t
 
 /-! ### {del} (topic.go:2979-3088, 3135-3223; hub.go:392-561) -/
@@ -586,6 +607,10 @@ def Ctx.opDelMsg (c : Ctx) (a : Actor) (tn : TName) (ranges : List (Int × Int))
       let c := if hard then c.presOnline t { what := "del", src := a.uid, extra := extra, filterIn := modeRead, skipSid := a.sid }
                else if isPresencer m then c.presOnline t { what := "del", src := a.uid, extra := extra, singleUser := a.uid, skipSid := a.sid }
                else c
+      -- … and on `me`, for the sessions which are not attached here (the ranges are not repeated there)
+      let c := if hard then c.presSubsOffline t "del" s!" clear={delId}:-" a.uid "" modeRead 0 { what := "del" } a.sid true
+               else if isPresencer m then c.presSingleOffline t a.uid m "del" s!" clear={delId}:-" "" "" a.sid true
+               else c
       (c.emit a.sid (ctrl 200 tn s!" del={delId}")).putLive t
 
 def Ctx.opDelSub (c : Ctx) (a : Actor) (tn : TName) (target : Uid) : Ctx :=
@@ -630,7 +655,7 @@ def Ctx.opDelTopic (c : Ctx) (a : Actor) (tn : TName) (hard : Bool) : Ctx :=
         match r with
         | none => c.emit a.sid (ctrl 500 tn)
         | some false => c.emit a.sid (ctrl 304 tn)
-        | some true => c.emit a.sid (ctrl 200 tn)
+        | some true => (c.presSingleOfflineOffline a.uid tn "gone" "" "" "" a.sid).emit a.sid (ctrl 200 tn)
       else
         let (c, ok) := c.call "TopicDelete" (fun w =>
           if hard then w.delRow tn
@@ -638,6 +663,8 @@ def Ctx.opDelTopic (c : Ctx) (a : Actor) (tn : TName) (hard : Bool) : Ctx :=
             | some r => w.setRow { r with state := 20, subs := r.subs.map (fun s => { s with deleted := true }) }
             | none => w)
         if !ok then c.emit a.sid (ctrl 500 tn) else
+        -- presSubsOfflineOffline: every subscriber is told on `me` that the topic is gone
+        let c := subs.foldl (fun c s => c.presSingleOfflineOffline s.user tn "gone" "" "" "" a.sid) c
         -- pushForChanDelete is sent whether or not the topic is a channel (hub.go:532-534)
         let c := { c with pushes := c.pushes ++ [s!"push what=sub topic=chn:{tn} seq=0 to=\{} chan={tn}"] }
         c.emit a.sid (ctrl 200 tn)
@@ -650,6 +677,8 @@ def Ctx.opDelTopic (c : Ctx) (a : Actor) (tn : TName) (hard : Bool) : Ctx :=
           | none => w)
       if !ok then c.emit a.sid (ctrl 500 tn) else
       let c := c.emit a.sid (ctrl 200 tn)
+      -- handleTopicTermination(StopDeleted): the subscribers are told on `me`
+      let c := c.presSubsOffline t "gone" "" "" "" 0 0 { what := "gone" } "" false
       c.terminateTopic t
     else
       let (c, t) := c.replyLeaveUnsub t a
@@ -659,7 +688,9 @@ def Ctx.opDelTopic (c : Ctx) (a : Actor) (tn : TName) (hard : Bool) : Ctx :=
 def Ctx.opUnload (c : Ctx) (tn : TName) : Ctx × String :=
   match c.w.live? tn with
   | none => (c, "notloaded")
-  | some t => if !t.sessions.isEmpty then (c, "busy") else (c.terminateTopic t, "")
+  | some t => if !t.sessions.isEmpty then (c, "busy") else
+    -- handleTopicTimeout: the subscribers are told on `me` that the topic is offline
+    ((if t.name.startsWith "P:" then c else c.presSubsOffline t "off" "" "" "" 0 0 { what := "off" } "" false).terminateTopic t, "")
 
 /-- sessToForeground (topic.go:831-852) on one group topic the session is attached to -/
 def Ctx.fgTopic (c : Ctx) (sid : Sid) (tn : TName) : Ctx :=
@@ -674,7 +705,9 @@ def Ctx.fgTopic (c : Ctx) (sid : Sid) (tn : TName) : Ctx :=
       let p := t.pud uid
       let t := t.setPud uid { p with online := p.online + 1 }
       let (c, t) :=
-        if !t.loaded then (c, { t with loaded := true })
+        if !t.loaded then
+          let status := if isPresencer (eff (t.pud uid)) then "on+en" else "on"
+          (c.presSubsOffline t status "" "" "" 0 0 { what := status } "" false, { t with loaded := true })
         else if (t.pud uid).online = 1 then (c.presOnline t { what := "on", src := uid, filterIn := modeRead, skipSid := sid }, t)
         else (c, t)
       c.putLive t
